@@ -210,10 +210,11 @@ RulesLoop:
 
 		// we always evaluate secmarkers
 		if tx.SkipAfter != "" {
-			verifRule(tx, phase, i, r, "pendingMarker")
 			if r.SecMark_ == tx.SkipAfter {
 				tx.SkipAfter = ""
+				verifRule(tx, phase, i, r, "pendingMarker")
 			} else {
+				verifRule(tx, phase, i, r, "pendingMarker")
 				tx.DebugLogger().Debug().
 					Int("rule_id", r.ID_).
 					Str("skip_after", tx.SkipAfter).
@@ -223,8 +224,8 @@ RulesLoop:
 			continue
 		}
 		if tx.Skip > 0 {
-			verifRule(tx, phase, i, r, "skipCounter")
 			tx.Skip--
+			verifRule(tx, phase, i, r, "skipCounter")
 			// Skipping rule
 			continue
 		}
